@@ -16,7 +16,7 @@ VERIF = os.path.dirname(os.path.dirname(os.path.abspath(__file__)))
 
 
 def sh(cmd, cwd=None, timeout=900):
-    r = subprocess.run(cmd, shell=True, cwd=cwd, capture_output=True, text=True, timeout=timeout)
+    r = subprocess.run(cmd, shell=True, cwd=cwd, capture_output=True, text=True, errors="replace", timeout=timeout)
     return r.returncode, (r.stdout + r.stderr)
 
 
@@ -105,7 +105,7 @@ def main():
     for f in ("patch.diff", "demo.c", "README"):
         if os.path.exists(os.path.join(seed, f)):
             shutil.copy(os.path.join(seed, f), os.path.join(dest, f))
-    readme = open(os.path.join(seed, "README")).read() if os.path.exists(os.path.join(seed, "README")) else ""
+    readme = open(os.path.join(seed, "README"), errors="replace").read() if os.path.exists(os.path.join(seed, "README")) else ""
     meta["needs_to_manifest"] = readme[:1200]
     json.dump(meta, open(os.path.join(dest, "meta.json"), "w"), indent=1)
     print("%s: valid=%s detected_by=%s  demo with/without=%s/%s suite=%s" % (name, valid, meta["detected_by"], meta["demo_with_change"]["exit"], meta["demo_without_change"]["exit"], meta["suite_with_change"]))
